@@ -2455,6 +2455,14 @@ def _emit_block(
 def emit(ast: Program) -> str:
     """Serialize a :class:`~Reduino.transpile.ast.Program` into Arduino C++."""
 
+    try:
+        return _emit(ast)
+    except RecursionError:
+        raise ValueError("the program is nested too deeply to emit") from None
+
+
+def _emit(ast: Program) -> str:
+
     led_pin: Dict[str, Union[int, str]] = {}
     led_state: Dict[str, str] = {}
     led_brightness: Dict[str, str] = {}
